@@ -1,24 +1,276 @@
+// Command vcheck is the driver of the deterministic-simulation checks.
+//
+//	vcheck <property> [--tier quick|thorough] [--replay file] [--workers n]
+//
+// It copies /repo's working tree into a scratch directory, redirects the
+// imports of sync, sync/atomic and os to the simulator's shims, builds the
+// simulation worker there, fans out seeded runs over worker processes,
+// minimises and re-confirms any failure in fresh processes, writes
+// /verif/evidence/<property>.json and removes the scratch directory.
+//
+// Exit status: 0 the property held on everything explored (known findings are
+// listed as KNOWN-FINDING lines); 1 a violation was found and confirmed (a
+// VIOLATION line names the replay file); 2 the check could not decide (build
+// trouble, watchdog, nondeterminism in the harness).
 package main
 
 import (
+	"encoding/json"
+	"flag"
 	"fmt"
 	"os"
+	"os/exec"
+	"path/filepath"
+	"runtime"
+	"sort"
+	"strconv"
+	"strings"
+	"sync"
+	"time"
 )
 
-func main() {
-	if len(os.Args) >= 3 && os.Args[1] == "prepare" {
-		info, err := prepare("/repo", "/verif", os.Args[2], false)
-		if err != nil {
-			fmt.Fprintln(os.Stderr, "HARNESS:", err)
-			os.Exit(2)
+var (
+	repoDir  = envOr("VERIF_REPO", "/repo")
+	verifDir = envOr("VERIF_DIR", "/verif")
+)
+
+func envOr(k, d string) string {
+	if v := os.Getenv(k); v != "" {
+		return v
+	}
+	return d
+}
+
+func fatal2(format string, a ...any) {
+	fmt.Fprintf(os.Stderr, "HARNESS: "+format+"\n", a...)
+	fmt.Printf("CANNOT-DECIDE: "+format+"\n", a...)
+	cleanup()
+	os.Exit(2)
+}
+
+var scratch string
+var keepScratch bool
+
+func cleanup() {
+	if scratch != "" && !keepScratch {
+		os.RemoveAll(scratch)
+	}
+}
+
+// phase is one batch of worker processes.
+type phase struct {
+	Name    string
+	Race    bool
+	Workers int
+	Runs    int     // per worker; 0 = until the enumeration share is exhausted
+	BudgetS float64 // per worker wall-clock cap for starting new runs
+}
+
+func phasesFor(prop, tier string, workers int) []phase {
+	q := tier == "quick"
+	switch prop {
+	case "C05":
+		if q {
+			return []phase{{"enumeration", false, workers, 0, 240}}
 		}
-		fmt.Printf("%+v\n", *info)
-		for _, race := range []bool{false, true} {
-			if _, err := buildSim(info, race); err != nil {
-				fmt.Fprintln(os.Stderr, "HARNESS:", err)
-				os.Exit(2)
+		return []phase{{"enumeration", false, workers, 0, 3000}, {"enumeration-race-sample", true, workers, 40, 600}}
+	case "C04":
+		if q {
+			return []phase{{"history-search", false, workers, 250, 60}, {"history-search-race", true, workers, 70, 60}}
+		}
+		return []phase{{"history-search", false, workers, 125000, 600}, {"history-search-race", true, workers, 20000, 600}}
+	case "C06":
+		if q {
+			return []phase{{"schedule-search-race", true, workers, 260, 70}, {"schedule-search", false, workers, 260, 40}}
+		}
+		return []phase{{"schedule-search-race", true, workers, 100000, 900}, {"schedule-search", false, workers, 100000, 300}}
+	case "C14":
+		if q {
+			return []phase{{"extend-histories", false, workers, 320, 60}, {"extend-histories-race", true, workers, 60, 60}}
+		}
+		return []phase{{"extend-histories", false, workers, 16000, 600}, {"extend-histories-race", true, workers, 3000, 300}}
+	}
+	return nil
+}
+
+var levels = map[string]string{"C04": "exploration", "C05": "fault_enumeration", "C06": "exploration", "C14": "exploration"}
+
+type runOut struct {
+	rep    *Report
+	stderr string
+	code   int
+	err    error
+}
+
+func runWorker(bin string, gomaxprocs int, raceLog string, args ...string) runOut {
+	cmd := exec.Command(bin, args...)
+	cmd.Env = append(os.Environ(), "GORACE=suppress_equal_stacks=0 suppress_equal_addresses=0 history_size=5"+raceLog)
+	if gomaxprocs > 0 {
+		cmd.Env = append(cmd.Env, "GOMAXPROCS="+strconv.Itoa(gomaxprocs))
+	}
+	var so, se strings.Builder
+	cmd.Stdout, cmd.Stderr = &so, &se
+	err := cmd.Run()
+	out := runOut{stderr: se.String(), err: err}
+	if ee, ok := err.(*exec.ExitError); ok {
+		out.code = ee.ExitCode()
+	} else if err != nil {
+		out.code = -1
+	}
+	// the report is the last line that parses
+	lines := strings.Split(strings.TrimSpace(so.String()), "\n")
+	for i := len(lines) - 1; i >= 0; i-- {
+		var r Report
+		if json.Unmarshal([]byte(lines[i]), &r) == nil && r.Property != "" {
+			out.rep = &r
+			break
+		}
+	}
+	return out
+}
+
+func main() {
+	if len(os.Args) < 2 {
+		fmt.Fprintln(os.Stderr, "usage: vcheck <property> [--tier quick|thorough] [--replay file]")
+		os.Exit(2)
+	}
+	prop := os.Args[1]
+	fs := flag.NewFlagSet("vcheck", flag.ExitOnError)
+	tier := fs.String("tier", envOr("VERIF_TIER", "quick"), "quick | thorough")
+	replay := fs.String("replay", "", "replay a recorded failure")
+	workers := fs.Int("workers", runtime.NumCPU(), "worker processes")
+	keep := fs.Bool("keep", false, "keep the scratch directory")
+	scale := fs.Float64("scale", 1, "multiply run counts (development)")
+	noSelftest := fs.Bool("no-selftest", false, "skip the determinism self-test (development)")
+	fs.Parse(os.Args[2:])
+	keepScratch = *keep
+	seed, err := strconv.ParseUint(envOr("VERIF_SEED", "1"), 10, 64)
+	if err != nil {
+		seed = 1
+	}
+	if *tier != "quick" && *tier != "thorough" {
+		*tier = "quick"
+	}
+
+	if prop == "selftest" {
+		os.Exit(selftestMain(seed, *workers))
+	}
+	if _, ok := levels[prop]; !ok {
+		fmt.Fprintf(os.Stderr, "vcheck: property %q is not claimed by this framework\n", prop)
+		os.Exit(2)
+	}
+	start := time.Now()
+	scratch, err = os.MkdirTemp("", "verif-"+prop+"-")
+	if err != nil {
+		fatal2("mktemp: %v", err)
+	}
+	defer cleanup()
+	info, err := prepare(repoDir, verifDir, filepath.Join(scratch, "src"), false)
+	if err != nil {
+		fatal2("prepare: %v", err)
+	}
+	for _, w := range info.Warnings {
+		fmt.Fprintln(os.Stderr, "WARNING:", w)
+	}
+	realDir := filepath.Join(scratch, "real")
+	os.MkdirAll(realDir, 0o755)
+
+	if *replay != "" {
+		os.Exit(replayMain(prop, *replay, info, realDir))
+	}
+
+	phases := phasesFor(prop, *tier, *workers)
+	bins := map[bool]string{}
+	tb := time.Now()
+	for _, ph := range phases {
+		if _, ok := bins[ph.Race]; !ok {
+			b, err := buildSim(info, ph.Race)
+			if err != nil {
+				fatal2("build: %v", err)
+			}
+			bins[ph.Race] = b
+		}
+	}
+	info.BuildSecs = time.Since(tb).Seconds()
+
+	ev := newEvidence(prop, *tier, seed, info)
+	var failures []Replay
+	for _, ph := range phases {
+		runs := ph.Runs
+		if runs > 0 {
+			runs = int(float64(runs) * *scale)
+			if runs < 1 {
+				runs = 1
 			}
 		}
-		return
+		outs := make([]runOut, ph.Workers)
+		var wg sync.WaitGroup
+		t0 := time.Now()
+		for w := 0; w < ph.Workers; w++ {
+			wg.Add(1)
+			go func(w int) {
+				defer wg.Done()
+				rd := filepath.Join(realDir, fmt.Sprintf("%s-w%d", ph.Name, w))
+				os.MkdirAll(rd, 0o755)
+				outs[w] = runWorker(bins[ph.Race], 0, "", "--prop", prop, "--tier", *tier, "--seed", strconv.FormatUint(seed, 10),
+					"--worker", strconv.Itoa(w), "--workers", strconv.Itoa(ph.Workers), "--runs", strconv.Itoa(runs),
+					"--budget-s", fmt.Sprint(ph.BudgetS), "--realdir", rd, "--emit-keys")
+			}(w)
+		}
+		wg.Wait()
+		for w, o := range outs {
+			if o.rep == nil || (o.code != 0) {
+				fatal2("phase %s worker %d: exit %d, %v\n%s", ph.Name, w, o.code, o.err, tail(o.stderr, 30))
+			}
+			if o.rep.Harness != "" {
+				fatal2("phase %s worker %d: %s", ph.Name, w, o.rep.Harness)
+			}
+			failures = append(failures, o.rep.Failures...)
+		}
+		ev.addPhase(ph, outs, time.Since(t0).Seconds())
 	}
+
+	if !*noSelftest {
+		st, err := determinismSelftest(prop, *tier, seed, bins, realDir)
+		if err != nil {
+			fatal2("determinism self-test: %v", err)
+		}
+		ev.Coverage["determinism_selftest"] = st
+	}
+
+	known := loadKnown(filepath.Join(verifDir, "known_findings.txt"))
+	violations, knownHits := judge(prop, seed, failures, info, bins, realDir, known)
+	ev.Violations = len(violations)
+	ev.Coverage["failing_runs_observed"] = len(failures)
+	ev.Coverage["known_findings_hit"] = knownHits
+	ev.WallS = time.Since(start).Seconds()
+	if err := ev.write(filepath.Join(verifDir, "evidence", prop+".json")); err != nil {
+		fatal2("write evidence: %v", err)
+	}
+	fmt.Printf("%s tier=%s seed=%d: %d runs, %d operations, %d distinct non-trivial cases, %d failing runs, %.1fs\n",
+		prop, *tier, seed, ev.Coverage["evaluations"], ev.Coverage["operations"], ev.Coverage["distinct_nontrivial"], len(failures), ev.WallS)
+	if len(violations) > 0 {
+		for _, v := range violations {
+			fmt.Printf("VIOLATION property=%s replay=%s\n", prop, v)
+		}
+		cleanup()
+		os.Exit(1)
+	}
+}
+
+func tail(s string, n int) string {
+	lines := strings.Split(strings.TrimRight(s, "\n"), "\n")
+	if len(lines) > n {
+		lines = lines[len(lines)-n:]
+	}
+	return strings.Join(lines, "\n")
+}
+
+func sortedKeys(m map[string]int) []string {
+	ks := make([]string, 0, len(m))
+	for k := range m {
+		ks = append(ks, k)
+	}
+	sort.Strings(ks)
+	return ks
 }
